@@ -1,12 +1,12 @@
 CONSTANTS
   N = 3
-  L = 2
+  L = 1
   Cap = 2
   HasHead = TRUE
   Manual = FALSE
   HasPay = FALSE
   HasPlans = TRUE
-  HasSerial = TRUE
+  HasSerial = FALSE
   HasHist = TRUE
   HasLog = FALSE
   Verbose = FALSE
@@ -14,9 +14,9 @@ CONSTANTS
   DefMask <- AllDef
   MaxActs = 1
   WithMonitors = TRUE
-  EnvOps <- SmokeOps
-  EnvActs <- SmokeActs
-  EnvPoints <- AllPoints
+  EnvOps <- PlanOps
+  EnvActs <- PlanActs
+  EnvPoints <- PlanPoints
 INIT Init
 NEXT Next
 VIEW StView
